@@ -6,12 +6,12 @@ use soroban_sdk::crypto::ideal_hash;
 use soroban_sdk::model::{self, any};
 use soroban_sdk::{Address, BytesN, Env, IntoVal, Symbol, Val};
 
-fn gw() -> Address {
+pub fn gw() -> Address {
     Address(1)
 }
 
 // ------------------------------------------------------------------ C02: consumption and queries
-fn any_message(env: &Env) -> Message {
+pub fn any_message(env: &Env) -> Message {
     Message {
         source_chain: any::string(2),
         message_id: any::string(2),
@@ -20,14 +20,14 @@ fn any_message(env: &Env) -> Message {
         payload_hash: any::b32(1),
     }
 }
-fn msg_eq(a: &Message, b: &Message) -> bool {
+pub fn msg_eq(a: &Message, b: &Message) -> bool {
     a.source_chain == b.source_chain && a.message_id == b.message_id && a.source_address == b.source_address && a.contract_address == b.contract_address && a.payload_hash == b.payload_hash
 }
-fn key_of(chain: &String, id: &String) -> Val {
+pub fn key_of(chain: &String, id: &String) -> Val {
     DataKey::MessageApproval(MessageApprovalKey { source_chain: chain.clone(), message_id: id.clone() }).into_val(&Env)
 }
 /// status: 0 absent, 1 Approved(h), 2 Executed, 3 explicit NotApproved
-fn seed_status_if(cond: bool, chain: &String, id: &String, status: u8, h: &[u8; 32]) {
+pub fn seed_status_if(cond: bool, chain: &String, id: &String, status: u8, h: &[u8; 32]) {
     let v: Option<MessageApprovalValue> = match status {
         1 => Some(MessageApprovalValue::Approved(BytesN(*h))),
         2 => Some(MessageApprovalValue::Executed),
@@ -38,7 +38,7 @@ fn seed_status_if(cond: bool, chain: &String, id: &String, status: u8, h: &[u8; 
     let v = v.unwrap_or(MessageApprovalValue::NotApproved);
     model::storage_set_if(present && cond, &gw(), 1, &key_of(chain, id), &model::val_of(&v));
 }
-fn status_is(chain: &String, id: &String, status: u8, h: &[u8; 32]) -> bool {
+pub fn status_is(chain: &String, id: &String, status: u8, h: &[u8; 32]) -> bool {
     let got = model::storage_get(&gw(), 1, &key_of(chain, id));
     match status {
         1 => got == Some(model::val_of(&MessageApprovalValue::Approved(BytesN(*h)))),
@@ -47,7 +47,7 @@ fn status_is(chain: &String, id: &String, status: u8, h: &[u8; 32]) -> bool {
         _ => got.is_none(),
     }
 }
-fn spec_msg_hash(env: &Env, m: &Message) -> [u8; 32] {
+pub fn spec_msg_hash(env: &Env, m: &Message) -> [u8; 32] {
     use soroban_sdk::xdr::ToXdr;
     ideal_hash(&m.clone().to_xdr(env).0)
 }
